@@ -13,7 +13,7 @@ from .c10 import OPTS, _timing
 
 PID = "C12"
 RULE = (
-    "cases = timing configuration (as C10: initial-delay window, repetitions, cyclic or not, TTL, collection timeout, "
+    "exhaustive: every script of bounded length over {start, stop, four kinds of FindService} x timing prefixes relative to the next library timer, for two timing configurations; random: cases = timing configuration (as C10: initial-delay window, repetitions, cyclic or not, TTL, collection timeout, "
     "request-response window, drawn fractions), 1..3 instances of one service differing in instance id / major / minor "
     "version, and a script of announcer start / stop / restart and FindService datagrams whose ids are taken from an "
     "instance, off by one, or the wildcard (every wildcard combination), unicast or multicast, from 2 requesters, placed "
